@@ -191,9 +191,10 @@ class _P(object):
                 items.append(self.expr())
             self.expect(")")
             self.skip_scope()
-            if len(items) == 1:
-                return items[0]
-            return tuple(items)
+            acc = items[0]
+            for it in items[1:]:
+                acc = (acc, it)   # Coq tuples nest to the left
+            return acc
         if (kind, val) == ("sym", "["):
             items = []
             if self.peek() != ("sym", "]"):
@@ -230,6 +231,17 @@ class _P(object):
                 raise ValueError("cons onto non-list")
             return [left] + right
         return left
+
+
+def flat(v, n):
+    """Flatten a left-nested Coq tuple ((a, b), c) ... into n components."""
+    out = []
+    while n > 1:
+        v, last = v
+        out.append(last)
+        n -= 1
+    out.append(v)
+    return list(reversed(out))
 
 
 def parse_term(s):
